@@ -106,8 +106,10 @@ def frame_lsf(lsf30):
     return randomize(interleave(puncture(conv_encode(bits_of_bytes(lsf30)), P1, 368)))
 
 
-def lich_chunk_bits(lsf30, n):
-    chunk = lsf30[5 * n:5 * n + 5] + bytes([(n & 7) << 5])
+def lich_chunk_bits(lsf30, n, chunk5=None):
+    """96 LICH bits for fragment n of the LSF (or for an explicit 5-byte chunk, e.g. with an out-of-range n)"""
+    chunk = (bytes(chunk5) if chunk5 is not None else lsf30[5 * n:5 * n + 5]) + bytes([(n & 7) << 5])
+    assert len(chunk) == 6
     bits = bits_of_bytes(chunk)
     out = []
     for k in range(4):
